@@ -57,6 +57,22 @@ func c14Chunk(e *Env) {
 			return f != nil && f.Name() == "Skip" && f.Pkg() != nil && f.Pkg().Path() == pkgNetwork
 		}
 		rl := &esp.Rule{Name: rule, Init: "U",
+			Track: func(k string) bool { return k == "err == nil" },
+			Inline: inlineWhen(info, func(f *types.Func) bool {
+				return isParse(f) || isSkip(f) || esp.Is(f, pkgUtils, "", "SkipCRLF")
+			}, func(n ast.Node) bool {
+				switch x := n.(type) {
+				case *ast.AssignStmt:
+					for _, l := range x.Lhs {
+						if isField(l) {
+							return true
+						}
+					}
+				case *ast.IncDecStmt:
+					return isField(x.X)
+				}
+				return false
+			}),
 			Node: func(c *esp.Ctx, n ast.Node) {
 				switch x := n.(type) {
 				case *ast.AssignStmt:
